@@ -1709,6 +1709,48 @@ func genHistCase(r *RNG, g HistGen, umask int) *HistCase {
 			paths = append(paths, d.Path+"/"+child, other, other+"/"+child)
 		}
 	}
+	if g.Force && g.Layering == "disjoint" && r.Chance(1, 4) {
+		// C17 on a path that was a directory TREE when the transaction began: the tree is removed through
+		// the BackupFS (every level gets tracked and copied), the path is left absent or taken by a file
+		// or a symlink, and then re-baselined: ForceBackup must drop the stale copy of the whole tree and
+		// every tracking entry below the path
+		var cand []string
+		for _, e := range c.Tree {
+			if e.Kind != "dir" || strings.Contains(e.Path, "zz") {
+				continue
+			}
+			for _, f := range c.Tree {
+				if f.Kind == "dir" && path.Dir(f.Path) == e.Path {
+					cand = append(cand, e.Path)
+					break
+				}
+			}
+		}
+		if len(cand) == 0 {
+			d := "/" + r.Pick(namePool) + "t"
+			c.Tree = append(c.Tree, Entry{Path: d, Kind: "dir", Mode: 0o755, MTime: oldTime(r)},
+				Entry{Path: d + "/sub", Kind: "dir", Mode: 0o750, MTime: oldTime(r)},
+				Entry{Path: d + "/sub/leaf", Kind: "file", Mode: 0o644, MTime: oldTime(r), Data: "leaf"})
+			for _, e := range c.Tree[len(c.Tree)-3:] {
+				og.Orig[e.Path] = e
+				paths = append(paths, e.Path)
+			}
+			cand = []string{d}
+		}
+		d := r.Pick(cand)
+		pre := []Op{{"removeall", []string{d}}}
+		switch r.Intn(3) {
+		case 0:
+			pre = append(pre, Op{"creat", []string{d, "now-a-file"}})
+		case 1:
+			pre = append(pre, Op{"symlink", []string{r.Pick(namePool) + "-missing", d}})
+		}
+		for i := range pre {
+			op := pre[i]
+			c.Steps = append(c.Steps, Step{Op: &op})
+		}
+		c.Steps = append(c.Steps, Step{Do: "force", Arg: []string{d}})
+	}
 	tx := g.Rollbacks
 	if tx == 0 {
 		tx = 1
